@@ -5,6 +5,7 @@ CONSTANTS
   Dense = FALSE
   KeepStatus = FALSE
   RecheckAtApply = TRUE
+  RecheckISR = FALSE
   CountAll = FALSE
 POSTCONDITION Done
 CHECK_DEADLOCK FALSE
